@@ -472,6 +472,18 @@ func (x *gen) strVal() string {
 	return string([]byte{byte('p' + r.Intn(8)), byte('p' + r.Intn(8))})
 }
 
+func perm(r *tr.Rand, n int) []int {
+	p := make([]int, n)
+	for i := range p {
+		p[i] = i
+	}
+	for i := n - 1; i > 0; i-- {
+		j := r.Intn(i + 1)
+		p[i], p[j] = p[j], p[i]
+	}
+	return p
+}
+
 // the comparators of the M kind other than the natural one, by family
 var magCmps = []string{"a", "t", "h", "A", "D", "x", "X"}
 
@@ -492,7 +504,7 @@ func (x *gen) customCmp() (string, []string) {
 }
 
 func main() {
-	tr.Main("C04: exhaustive histories of up to 3 (quick) / 4 (thorough) Set/Delete/Clear over 3 keys each followed by Len, Keys, String, Get of every key and First/Last/Seek of every target (below, present, between, above) with full Next and Prev sweeps, under cmp.Compare and (one level shallower) under comparators returning arbitrary magnitudes (a-b, 7*(b-a), MinInt/MaxInt); the same battery on Map[string,string] with the empty string as a key and as a value; random histories of up to 60 operations over small and large key spaces under natural, reversed, modular, magnitude (a-b, 3*(a-b), (a-b)<<32, b-a, 7*(b-a), modular differences, MinInt/MaxInt) comparators and on string keys under strings.Compare, reversed, length-difference, byte-difference and first-byte comparators, mixing edits with lookups, Keys, String, iterators in 3 registers (First, Last, Seek, Iter.Seek re-synchronization after edits, Next/Prev steps and sweeps from seek positions), a fifth of the operations through a copy of the Map value; ascending/descending bulk loads to 300 keys; the zero Map (both key types) with every read operation, Delete, Clear, every iterator constructor and move, and with Set. A case is non-trivial when it contains at least one edit and one observation; distinct = distinct input lines.",
+	tr.Main("C04: exhaustive histories of up to 3 (quick) / 4 (thorough) Set/Delete/Clear over 3 keys each followed by Len, Keys, String, Get of every key and First/Last/Seek of every target (below, present, between, above) with full Next and Prev sweeps, under cmp.Compare and (one level shallower) under comparators returning arbitrary magnitudes (a-b, 7*(b-a), MinInt/MaxInt); the same battery on Map[string,string] with the empty string as a key and as a value; random histories of up to 60 operations over small and large key spaces under natural, reversed, modular, magnitude (a-b, 3*(a-b), (a-b)<<32, b-a, 7*(b-a), modular differences, MinInt/MaxInt) comparators and on string keys under strings.Compare, reversed, length-difference, byte-difference and first-byte comparators, mixing edits with lookups, Keys, String, iterators in 3 registers (First, Last, Seek, Iter.Seek re-synchronization after edits, Next/Prev steps and sweeps from seek positions), a fifth of the operations through a copy of the Map value; deleting, updating and inserting while iterating with Iter.Seek re-synchronization after every edit; ascending/descending bulk loads to 300 keys; the zero Map (both key types) with every read operation, Delete, Clear, every iterator constructor and move, and with Set. A case is non-trivial when it contains at least one edit and one observation; distinct = distinct input lines.",
 		exec, func(g *tr.G) {
 			x := &gen{g}
 			r := g.R
@@ -621,6 +633,35 @@ func main() {
 					tags = append(tags, "custom-comparator")
 				}
 				x.g.Emit("M "+cmps+" n "+strings.Join(ops, ";"), true, tags...)
+			}
+			// 4b. delete (or update) while iterating, re-synchronizing with Iter.Seek after every edit (the
+			// pattern of the package documentation and of TestIterEdit); a second iterator walks backwards
+			for i := 0; i < g.Scale(300, 3000); i++ {
+				n := 3 + r.Intn(14)
+				cmps := []string{"n", "n", "a", "t", "x", "h"}[r.Intn(6)]
+				var ops []string
+				for _, k := range perm(r, n) {
+					ops = append(ops, "s"+strconv.Itoa(2*k)+"="+strconv.Itoa(k))
+				}
+				ops = append(ops, "F0", "L1")
+				for k := 0; k < n; k++ { // register 0 is at key 2k here
+					ks := strconv.Itoa(2 * k)
+					switch r.Intn(5) {
+					case 0:
+						ops = append(ops, "d"+ks, "e0="+ks) // delete the current key, re-seek: now at the next one
+					case 1:
+						ops = append(ops, "s"+ks+"="+strconv.Itoa(100+k), "e0="+ks, "n0") // update, re-seek (same key), advance
+					case 2:
+						ops = append(ops, "s"+strconv.Itoa(2*k+1)+"=7", "e0="+ks, "n0", "n0") // insert just after, re-seek, step over both
+					default:
+						ops = append(ops, "n0")
+					}
+					if r.Chance(1, 4) {
+						ops = append(ops, "e1="+strconv.Itoa(2*(n-k)), "p1")
+					}
+				}
+				ops = append(ops, "n0", "l", "k", "F2", "N2")
+				x.g.Emit("M "+cmps+" n "+strings.Join(ops, ";"), true, "edit-while-iterating")
 			}
 			// 5. bulk loads (rebalancing on the way), then deletes from both ends and sweeps
 			for i := 0; i < g.Scale(8, 120); i++ {
